@@ -48,6 +48,7 @@ pub fn check_history(plan: &Plan, r: &RunResult) -> Vec<Violation> {
     let n = plan.tasks.len();
     let mut stacks: Vec<Vec<Open>> = (0..n).map(|_| vec![]).collect();
     let mut closed = vec![false; n]; // after CancelDone: no further events
+    let mut abandoned = vec![false; n]; // threaded sync task left to run to completion, unjudged
     let mut cancelling = vec![false; n];
     let mut constructs: BTreeMap<u64, i64> = BTreeMap::new();
     let mut completed_calls = vec![0usize; n];
@@ -71,6 +72,7 @@ pub fn check_history(plan: &Plan, r: &RunResult) -> Vec<Violation> {
             | Ev::CancelDone { task }
             | Ev::Panicked { task }
             | Ev::SyncStart { task }
+            | Ev::Abandoned { task }
             | Ev::SyncEnd { task, .. } => *task as usize,
         };
         if task >= n {
@@ -78,6 +80,19 @@ pub fn check_history(plan: &Plan, r: &RunResult) -> Vec<Violation> {
         }
         let app = plan.tasks[task].app;
         let ai = app_index(app);
+        if let Ev::Abandoned { .. } = ev {
+            abandoned[task] = true;
+            stacks[task].clear();
+            continue;
+        }
+        if abandoned[task] {
+            match ev {
+                Ev::Construct { id, .. } => *constructs.entry(*id).or_default() += 1,
+                Ev::Drop { id, .. } => *constructs.entry(*id).or_default() -= 1,
+                _ => {}
+            }
+            continue;
+        }
         let stack = &mut stacks[task];
         if closed[task] {
             match ev {
